@@ -74,36 +74,40 @@ Print Assumptions C02_nonvacuous.
 
 (** * The un-parser theorem (ParseProofs/Unparse.v: definitions; UnparseProofs.v, UnparseTop.v: proofs)
 
-    An invocation is a list of items -- [--flag], [--opt=v], [--opt v1 .. vk], and short clusters
-    [-abc], [-abcoV], [-abco=V], [-abco v1 .. vk] --, [render] prints it as tokens, [apply_items] is
-    its meaning on parser states (one [react] per occurrence with exactly that occurrence's values;
-    an option whose values are separate tokens stays open in the pending buffer), [occs] its meaning
-    as a spelling-independent list of occurrences.
-    Class: [conv c] (built command: validity gate, no subcommand_precedence_over_arg, no argument
-    with hyphen/negative-number values, require_equals or a terminator) and [wf_items c its] (names
-    resolve by exact key, short names ASCII, the first token of an item is not a subcommand name,
-    separate values are value tokens -- not starting with [-], see [C02_value_tokens] -- and at most
-    [num_args.max] of them). *)
+    An invocation of one command level is a list of items -- [--flag], [--opt=v], [--opt v1 .. vk],
+    short clusters [-abc], [-abcoV], [-abco=V], [-abco v1 .. vk], and runs of positional values --,
+    [render] prints it as tokens, [apply_items] is its meaning on parser states (one [react] per
+    occurrence with exactly that occurrence's values; an occurrence whose values are separate tokens
+    stays open in the pending buffer), [occs] its meaning as a spelling-independent list of
+    occurrences.  [pos] is the positional counter, [pst] the [ParseState] when the items start.
+    Class: [conv c] (built command: validity gate, no subcommand_precedence_over_arg, no
+    allow_missing_positional, only the last positional multiple, no argument with hyphen/negative-
+    number values, require_equals, a terminator, last or trailing_var_arg) and [wf_items c pst pos its]
+    (names resolve by exact key, short names ASCII, the first token of an item is not a subcommand
+    name, separate values are value tokens -- not starting with [-], see [C02_value_tokens] -- and at
+    most [num_args.max] of them for an option; a positional run does not directly follow an option
+    that is still open and is maximal). *)
 
-(** TOKEN LOOP.  From every state between two items ([pst_ok]: done, or an option still open),
-    the loop of [Parser::parse] on the rendered items followed by ANY rest is the loop on the rest
-    from the state the invocation denotes: every token is consumed exactly once, as the part of the
-    item it was rendered from.  (An equality of results: it includes the lines where [react]
-    rejects an occurrence.) *)
+(** TOKEN LOOP.  From every state between two items ([pst_ok]: done, an option still open, or a
+    positional run open; [pend_inv]: what may be pending there), the loop of [Parser::parse] on the
+    rendered items followed by ANY rest is the loop on the rest from the state the invocation
+    denotes: every token is consumed exactly once, as the part of the item it was rendered from.
+    (An equality of results: it includes the lines where [react] rejects an occurrence.) *)
 Theorem C02_unparse_loop : forall c, conv c = true -> forall its rest pst pos vaf st,
-  wf_items c its = true -> pst_ok c pst -> fs_skip st = 0 ->
+  wf_items c pst pos its = true -> pst_ok c pst -> pend_inv c pst st -> fs_skip st = 0 ->
   parse_loop c (render its ++ rest) (mkL pst pos vaf false) st =
-  (do st' <- apply_items c its st;
-   parse_loop c rest (mkL (items_pst c pst its) pos (vaf || negb (is_nil its)) false) st').
+  (do st' <- apply_items c pos its st;
+   parse_loop c rest (mkL (items_pst c pst pos its) (items_pos c pos its) (vaf || negb (is_nil its)) false) st').
 Proof. exact loop_items. Qed.
 Print Assumptions C02_unparse_loop.
 
 (** SPELLING-INDEPENDENT MEANING.  Flushing the pending occurrence after the invocation gives the
     fold of [react] over [occs]: [--o=v], [--o v], [-ov], [-o=v], [-o v] and a cluster ending in
-    [o] all contribute the same occurrence (argument, value list). *)
-Theorem C02_unparse_meaning : forall c, conv c = true -> forall its st, wf_items c its = true ->
-  (do st' <- apply_items c its st; resolve_pending c st') =
-  (do st0 <- resolve_pending c st; react_all c (occs c its) st0).
+    [o] all contribute the same occurrence (argument, value list); a run of positional values is
+    one occurrence of the positional the counter points at. *)
+Theorem C02_unparse_meaning : forall c, conv c = true -> forall its pst pos st, wf_items c pst pos its = true ->
+  (do st' <- apply_items c pos its st; resolve_pending c st') =
+  (do st0 <- resolve_pending c st; react_all c (occs c pos its) st0).
 Proof. exact flush_items. Qed.
 Print Assumptions C02_unparse_meaning.
 
@@ -111,9 +115,9 @@ Print Assumptions C02_unparse_meaning.
     no [ignore_errors]) is: the fold of [react] over the invocation's occurrences from the empty
     matcher, then the env, default and validation phases. *)
 Theorem C02_unparse_level : forall c, conv c = true -> is_set s_ignore_errors c = false ->
-  forall f its, wf_items c its = true ->
+  forall f its, wf_items c PSValuesDone 1 its = true ->
   get_matches_with (S f) c (render its) ps_new =
-  (do st1 <- react_all c (occs c its) ps_new; post_loop c st1).
+  (do st1 <- react_all c (occs c 1 its) ps_new; post_loop c st1).
 Proof. exact gmw_items. Qed.
 Print Assumptions C02_unparse_level.
 
@@ -123,7 +127,7 @@ Print Assumptions C02_unparse_level.
     (2) every entry labelled command line reports exactly the groups the invocation gives to that
     argument -- nothing invented, nothing attributed to another argument. *)
 Theorem C02_conservation : forall c, conv c = true -> is_set s_ignore_errors c = false ->
-  forall f its st, wf_items c its = true ->
+  forall f its st, wf_items c PSValuesDone 1 its = true ->
   get_matches_with (S f) c (render its) ps_new = ROk st ->
   forall a, In a (c_args c) ->
     (forall gs, denote_arg c (a_id a) its = Some gs -> groups_of (a_id a) (mt st) = Some gs)
@@ -136,10 +140,10 @@ Print Assumptions C02_conservation.
     command-line order, one group per occurrence, each holding that occurrence's values split only
     at the declared delimiter ([occ_groups]/[o_vals] = [delimit] of the occurrence's values). *)
 Theorem C02_conservation_append : forall c, conv c = true -> is_set s_ignore_errors c = false ->
-  forall f its st a, wf_items c its = true -> no_overrides c = true ->
+  forall f its st a, wf_items c PSValuesDone 1 its = true -> no_overrides c = true ->
   get_matches_with (S f) c (render its) ps_new = ROk st ->
-  In a (c_args c) -> a_get_action a = AAppend -> (0 < Actions.count_occ (a_id a) (occs c its))%nat ->
-  groups_of (a_id a) (mt st) = Some (occ_groups c (a_id a) (occs c its)).
+  In a (c_args c) -> a_get_action a = AAppend -> (0 < Actions.count_occ (a_id a) (occs c 1 its))%nat ->
+  groups_of (a_id a) (mt st) = Some (occ_groups c (a_id a) (occs c 1 its)).
 Proof. exact conservation_append. Qed.
 Print Assumptions C02_conservation_append.
 
@@ -149,19 +153,22 @@ Proof. exact value_ok_nodash. Qed.
 Print Assumptions C02_value_tokens.
 
 (** Non-vacuity: a built command satisfying [conv], and an invocation using every item kind and
-    every spelling ([--qu -vvoAB --opt=== --mu A B,C -vm A -s= --yy -v]) that is well formed,
-    parses, and reports the expected groups (Append order and boundaries, delimiter split,
-    default-missing for the value-less [--yy], the count 4 for four [v]s in three clusters). *)
+    every spelling ([--qu F -vvoAB --opt=== --mu A B,C -vm A -s= R S --yy -v T]) that is well
+    formed, parses, and reports the expected groups (Append order and boundaries, delimiter split,
+    the count 4 for four [v]s in three clusters, the positional runs [R S] and [T] as two
+    occurrences of the second positional). *)
 Theorem C02_unparse_nonvacuous :
   valid UnparseEx.c0 = true /\ conv UnparseEx.c = true /\ is_set s_ignore_errors UnparseEx.c = false /\
-  no_overrides UnparseEx.c = true /\ wf_items UnparseEx.c UnparseEx.its = true /\
+  no_overrides UnparseEx.c = true /\ wf_items UnparseEx.c PSValuesDone 1 UnparseEx.its = true /\
   render UnparseEx.its =
-    [[45; 45; 113; 117]; [45; 118; 118; 111; 65; 66]; [45; 45; 111; 112; 116; 61; 61; 61];
-     [45; 45; 109; 117]; [65]; [66; 44; 67]; [45; 118; 109]; [65]; [45; 115; 61]; [45; 45; 121; 121]; [45; 118]] /\
+    [[45; 45; 113; 117]; [70]; [45; 118; 118; 111; 65; 66]; [45; 45; 111; 112; 116; 61; 61; 61];
+     [45; 45; 109; 117]; [65]; [66; 44; 67]; [45; 118; 109]; [65]; [45; 115; 61]; [82]; [83]; [45; 45; 121; 121]; [45; 118]; [84]] /\
   exists st, get_matches_with 3 UnparseEx.c (render UnparseEx.its) ps_new = ROk st /\
     groups_of [111] (mt st) = Some [[[65; 66]]; [[61; 61]]] /\
     groups_of [109] (mt st) = Some [[[65]; [66]; [67]]; [[65]]] /\
-    groups_of [118] (mt st) = Some [[[52]]].
+    groups_of [118] (mt st) = Some [[[52]]] /\
+    groups_of [102] (mt st) = Some [[[70]]] /\
+    groups_of [114] (mt st) = Some [[[82]; [83]]; [[84]]].
 Proof.
   split; [exact UnparseEx.ex_valid|]. split; [exact UnparseEx.ex_conv|]. split; [exact UnparseEx.ex_no_ignore_errors|].
   split; [exact UnparseEx.ex_no_overrides|]. split; [exact UnparseEx.ex_wf|]. split; [exact UnparseEx.ex_render|].
